@@ -214,6 +214,10 @@ def wl_sequential(ctx, rng, case_no):
 # ---------------------------------------------------------------------------------------------- track()
 def wl_track(ctx, rng, case_no):
     n = rng.choice([0, 1, 2, 5, 17, 50])
+    if rng.random() < 0.06:
+        # long sequences: counts beyond a thousand, lengths that are not a multiple of anything convenient
+        n = rng.choice([999, 1000, 1001, 1024, 2001, 2999, 4097, 10007]) + rng.choice([0, 0, 1, 7])
+        ctx.count("mon.track_long_sequence")
     items = [("x", i) for i in range(n)]
     as_gen = rng.random() < 0.4
     auto = rng.random() < 0.5
@@ -612,7 +616,7 @@ def _bit_in(value, amount):
 def workloads(tier):
     big = tier == "thorough"
     return [WL("sequential", wl_sequential, 400000 if big else 40000),
-            WL("track", wl_track, 6000 if big else 400),
+            WL("track", wl_track, 12000 if big else 1600),
             WL("track_scheduled", wl_track_scheduled, 300000 if big else 12000),
             WL("concurrent", wl_concurrent, 200000 if big else 10000),
             WL("single_preemption_dfs", wl_dfs, 600 if big else 32)]
